@@ -141,7 +141,8 @@ def regen_footprint(flex, src, work):
         # an object in a writable section that the code never assigns to (nor takes the address of) is not state
         ctext = open(cf, errors='replace').read()
         written = set()
-        for sym in muts:
+        for osym in muts:
+            sym = re.sub(r'\.\d+$', '', osym)        # function-scope statics are emitted as name.N
             decl = re.search(r'^[^\n;]*\b%s\s*\[[^\n]*=\s*\{' % re.escape(sym), ctext, re.M)
             body = ctext.replace(decl.group(0), '') if decl else ctext
             if re.search(r'(?<![\w.>])%s\s*(\[[^\]]*\]\s*)*(=(?!=)|\+\+|--|[-+*/|&^]=)' % re.escape(sym), body) or \
